@@ -186,6 +186,10 @@ type hostsRun struct {
 	// enough (136 more stations) to fill it: tracking and the table invariants are judged as always, the notification
 	// trace (C06) is not - what is dropped on a full channel is the library's documented choice
 	noReader bool
+	// inject: at the purge goroutine's yield points (between its scan and its offline / delete steps, where it holds no lock)
+	// a frame of the universe is parsed, as the packet loop would do in between. No sequential model describes the outcome:
+	// only the table invariants (C05) and the absence of panics are judged in such a history.
+	inject bool
 }
 
 func tripleStr(t []model.Triple) string {
@@ -274,6 +278,33 @@ func (hr *hostsRun) history() {
 	prevKey := m.StateKey()
 	compare := hr.compare
 	rx := newRx()
+	if hr.inject {
+		compare = false
+		ir := c.Rand("hosts-inject", hr.idx)
+		irx := newRx()
+		busy := false
+		yf := func(point string) {
+			if busy || (point != "purge:before-offline" && point != "purge:before-delete") || ir.Intn(3) == 0 {
+				return
+			}
+			busy = true
+			defer func() { busy = false }()
+			for k := 1 + ir.Intn(2); k > 0; k-- {
+				kind := []string{"f4", "f4", "arp", "f6"}[ir.Intn(4)]
+				mac, ip := uMACs[1+ir.Intn(len(uMACs)-1)], uIPs[ir.Intn(5)]
+				if kind == "f6" {
+					ip = uIPs[8+ir.Intn(4)]
+				}
+				if frame, err := s.Parse(irx.load(buildFrame(kind, mac, ip))); err == nil {
+					s.Notify(frame)
+				}
+				irx.scribble()
+				c.Obs("frames_injected_between_purge_steps", 1)
+			}
+		}
+		packet.VerifYield.Store(&yf)
+		defer packet.VerifYield.Store(nil)
+	}
 	for step, o := range hr.ops {
 		var want []model.Group
 		before := m.Triples()
@@ -368,7 +399,7 @@ func (hr *hostsRun) history() {
 				m.UpdateName(ip, o.S, uNames[o.N])
 			case "capture":
 				err := s.Capture(net.HardwareAddr(mac[:]))
-				if ok := m.Capture(model.MAC(mac[:])); ok != (err == nil) {
+				if ok := m.Capture(model.MAC(mac[:])); ok != (err == nil) && !hr.inject {
 					c.ViolP("C04", "model:capture-result", fmt.Sprintf("Capture(%s) error=%v, model ok=%v", uMACName[o.M], err, ok), cs(step))
 				}
 			case "release":
@@ -647,7 +678,7 @@ func runHosts(c *wk.Ctx) {
 	one := func(idx int64, ops []hop, cfg deadlines, kind string) {
 		c.Begin(idx, "hosts-history", nil)
 		c.Eval()
-		hr := &hostsRun{c: c, idx: idx, ops: ops, cfg: cfg, compare: true, states: states, trans: trans, noReader: kind == "random" && idx%16 == 11}
+		hr := &hostsRun{c: c, idx: idx, ops: ops, cfg: cfg, compare: true, states: states, trans: trans, noReader: kind == "random" && idx%16 == 11, inject: kind == "random" && idx%16 == 3}
 		runBubble(c, idx, func() { hr.history() })
 		if hr.changed && !hr.viol {
 			c.Class(kind + ":" + histShape(ops))
